@@ -321,6 +321,19 @@ pub trait Target {
     fn evaluator<'a>(&'a self) -> Box<dyn FnMut(f64) -> f64 + 'a>;
     /// A fresh `evaluate_v` stream over the given feed.
     fn stream<'a>(&'a self, feed: SimFeed) -> Box<dyn Iterator<Item = f64> + 'a>;
+    /// A fresh `evaluate_v` stream over `xs`, consumed in one go by the given consumer method of
+    /// the concrete iterator type the library returns.
+    fn stream_batch(&self, mode: crate::cursor::BatchMode, xs: &[f64]) -> BatchOut;
+}
+
+pub struct BatchOut {
+    /// (index in the argument sequence, value) of every result observed
+    pub values: Vec<(usize, f64)>,
+    pub expected_values: usize,
+    pub count: Option<usize>,
+    pub size_hint: Option<(usize, Option<usize>)>,
+    /// inputs pulled from the simulator's feed
+    pub pulled: u64,
 }
 
 impl<T: Piece> Target for Piecewise<T> {
@@ -353,6 +366,62 @@ impl<T: Piece> Target for Piecewise<T> {
     }
     fn stream<'a>(&'a self, feed: SimFeed) -> Box<dyn Iterator<Item = f64> + 'a> {
         Box::new(self.evaluate_v(feed))
+    }
+    fn stream_batch(&self, mode: crate::cursor::BatchMode, xs: &[f64]) -> BatchOut {
+        use crate::cursor::BatchMode as M;
+        let feed = SimFeed::new();
+        for &x in xs {
+            feed.push(x);
+        }
+        let n = xs.len();
+        let mut out = BatchOut { values: Vec::new(), expected_values: n, count: None, size_hint: None, pulled: 0 };
+        match mode {
+            M::Collect => {
+                let v: Vec<f64> = self.evaluate_v(feed.clone()).collect();
+                out.values = v.into_iter().enumerate().collect();
+            }
+            M::Fold => {
+                let v = self.evaluate_v(feed.clone()).fold(Vec::new(), |mut acc, y| {
+                    acc.push(y);
+                    acc
+                });
+                out.values = v.into_iter().enumerate().collect();
+            }
+            M::Count => {
+                out.count = Some(self.evaluate_v(feed.clone()).count());
+                out.expected_values = 0;
+            }
+            M::Last => {
+                if let Some(y) = self.evaluate_v(feed.clone()).last() {
+                    out.values.push((n - 1, y));
+                }
+                out.expected_values = usize::from(n > 0);
+            }
+            M::Nth(k) => {
+                let mut it = self.evaluate_v(feed.clone());
+                if let Some(y) = it.nth(k) {
+                    out.values.push((k, y));
+                }
+                for (j, y) in it.enumerate() {
+                    out.values.push((k + 1 + j, y));
+                }
+                out.expected_values = n.saturating_sub(k);
+            }
+            M::SizeHint => {
+                let it = self.evaluate_v(feed.clone());
+                out.size_hint = Some(it.size_hint());
+                let v: Vec<f64> = it.collect();
+                out.values = v.into_iter().enumerate().collect();
+            }
+            M::VecInput => {
+                let it = self.evaluate_v(xs.to_vec());
+                out.size_hint = Some(it.size_hint());
+                let v: Vec<f64> = it.collect();
+                out.values = v.into_iter().enumerate().collect();
+            }
+        }
+        out.pulled = feed.pulls();
+        out
     }
 }
 
